@@ -148,6 +148,18 @@ class C06(Prop):
         return [rec]
 
     def post(self, tw):
+        # measured, for the evidence: how many observed (observable list, outcome) entries were undetermined / determined
+        import json
+        und = det = 0
+        for f in tw.files:
+            for line in open(f):
+                for e in json.loads(line).get("entries", []):
+                    if e.get("l2p", 0) < 0:
+                        und += 1
+                    else:
+                        det += 1
+        self.notes["undetermined_entries"] = und
+        self.notes["determined_entries"] = det
         return []
 
 
